@@ -11,7 +11,8 @@
    when none was supplied — rounded down to a millisecond) from 0.10 on, no timestamp below 0.10 (message format v0). *)
 From Coq Require Import List ZArith Bool.
 From SV Require Import Wire.Bytes Wire.Prim Wire.PushPop Wire.PrimProofs Wire.Records Wire.BatchProofs
-  C04.Model C04.Proofs C04.ProofsWire C04.Examples.
+  C04.Model C04.Proofs C04.ProofsWire C04.ProofsProducer C04.Examples.
+From SV Require Producer.Msg Producer.Compose.
 Import ListNotations.
 Open Scope Z_scope.
 
@@ -99,7 +100,26 @@ Theorem c04_nothing_added : forall c pid pepoch l k x r base,
 Proof. exact nothing_added. Qed.
 Print Assumptions c04_nothing_added.
 
-(* ... and what is handed to add are application messages only.  Current tree (/repo 1a6c550, fx = true = Model.FIN_FIX, which
+(* The FULL statement, through the actor composition of coq/Producer (C01: c01_buffer_data_only, for every configuration —
+   idempotent included —, schedule and fault script): a set the composed producer hands to the network ([sent_in]: at a
+   broker worker's bridge or in flight, in any reachable state) holds application messages only, so every record a leader
+   appends for it is the image of an APPLICATION message that was handed to add for that partition.  coq/Producer
+   abstracts content away; [refines]: the content-carrying set carries, partition by partition, the flags of the abstract one. *)
+Theorem c04_nothing_added_full : forall pc sched st c pid pepoch l k x r base,
+  SV.Producer.Msg.c_fix_rb pc = true -> sent_in pc sched st ->
+  refines (fst (add_all c (new_set pid pepoch) l)) st ->
+  part_lookup k (s_parts (fst (add_all c (new_set pid pepoch) l))) = Some x -> build_part c x = Some r ->
+  forall o e, In (o, e) (append_records base (decoded_view r)) ->
+  exists m, In m (ps_msgs x) /\ is_data m = true /\ e = image c m /\ In (k, m) l.
+Proof. exact nothing_added_full. Qed.
+Print Assumptions c04_nothing_added_full.
+
+Theorem c04_sent_sets_data_only : forall c sched st s,
+  SV.Producer.Msg.c_fix_rb c = true -> sent_in c sched st -> refines s st -> set_data_only s.
+Proof. exact sent_sets_data_only. Qed.
+Print Assumptions c04_sent_sets_data_only.
+
+(* The same on this property's own model of one broker worker (the one the hook points are compared with).  Current tree (/repo 1a6c550, fx = true = Model.FIN_FIX, which
    the correspondence uses): whatever the worker's state, syn is consumed and fin is bounced; the partition workers create
    syn and fin markers only. *)
 Theorem c04_nothing_added_buffer : forall c evs st,
